@@ -7,7 +7,9 @@ rowid OF THE ELEMENT IT BELONGS TO in that element's table.
 
 These functions are executed by the same symbolic interpreter as the real code, against the same stubs.
 """
+import wn
 from wn._queries import (
+    find_senses,
     find_entries, find_synsets, find_syntactic_behaviours, find_proposed_ilis, get_entry_senses,
     get_sense_relations, get_sense_synset_relations, get_synset_relations, get_synset_members, get_examples,
     get_definitions, get_metadata, get_lexicalized, get_adjposition, get_form_pronunciations, get_form_tags,
@@ -186,3 +188,18 @@ def spec_export_lexicon(lexicon, version):
         lex['requires'] = _export_requires(lexicon._id)
         lex['frames'] = _export_syntactic_behaviours_1_1(lexids)
     return lex
+
+
+def spec_precheck(lexicons):
+    # documented precondition of a joint export: the identifiers of lexicons, entries, senses and synsets are
+    # unique across the exported lexicons (syntactic behaviours may lack ids and are not part of it)
+    all_ids = set()
+    for lex in lexicons:
+        lexids = (lex._id,)
+        idset = {lex.id}
+        idset.update(row[0] for row in find_entries(lexicon_rowids=lexids))
+        idset.update(row[0] for row in find_senses(lexicon_rowids=lexids))
+        idset.update(row[0] for row in find_synsets(lexicon_rowids=lexids))
+        if all_ids.intersection(idset):
+            raise wn.Error('cannot export: non-unique identifiers in lexicons')
+        all_ids |= idset
